@@ -56,8 +56,10 @@ ECEF_FIXED = [([[4201000.0, 168000.0, 4780000.0], [4201003.0, 168004.0, 4780000.
                [[4201000.0, 168004.0, 4780000.0], [4201003.0, 168000.0, 4780012.0]]),
               ([[6378137.0, 0.0, 0.0], [6378137.0, 3.0, 4.0]], [[6378137.0, 0.0, 4.0], [6378137.0, 3.0, 0.0], [6378140.0, 3.0, 4.0]])]
 ECEF_ORIGINS = [(4201000.0, 168000.0, 4780000.0), (6378137.0, 0.0, 0.0), (-2700000.0, -4300000.0, 3850000.0)]
-# numpy integer types of at most 32 bits: `B ** p` with B a Python int converts B to the type of p (OverflowError when it does not fit)
-SMALLINT_FORMS = ["np.int8", "np.int16", "np.int32", "np.intc", "np.uint8", "np.uint16", "np.uint32"]
+# numpy integer types: `B ** p` with B a Python int is evaluated in the type of p (OverflowError when B does not fit, silent
+# wrap-around when B ** p does not): largest value of each type
+NPINT_MAX = {"np.int8": 2 ** 7 - 1, "np.int16": 2 ** 15 - 1, "np.int32": 2 ** 31 - 1, "np.intc": 2 ** 31 - 1, "np.int64": 2 ** 63 - 1,
+             "np.uint8": 2 ** 8 - 1, "np.uint16": 2 ** 16 - 1, "np.uint32": 2 ** 32 - 1, "np.uint64": 2 ** 64 - 1}
 
 
 # ---------------------------------------------------------------------------------- tracks
@@ -474,9 +476,6 @@ class P(Prop):
         ct = rng.choice(["float", "float", "np.float64", "int"]) if cls == "enu" else "float"
         if ct == "int" and not all(float(v).is_integer() for t in tracks for q in t for v in q):
             ct = "float"
-        zs = [q[2] for t in tracks for q in t]
-        if ct == "int" and CLS_INTPOW not in self.listed and max(zs) - min(zs) > 5:
-            ct = "float"     # altitudes as Python ints more than 5 apart (6**3 > 127) + FDTW + dim 1 + p a small numpy integer: see classify()
         steps, okres = [], []
         for k in range(rng.choice([1, 1, 2, 2, 3, 4])):
             f = "m" if rng.random() < 0.8 else "c"
@@ -504,8 +503,11 @@ class P(Prop):
             vb = rng.choice(["F", "F", "T", "default"])
             st = rng.choice(["kw", "kw", "pos"])
             steps.append(self.step(f, a, b, mode, p, pf, dim, mf, df, vb, st))
-            if f == "m" and mode != "bad" and defined(cls, dim):
-                okres.append(k)
+            tmp = {"ct": ct, "cls": cls, "tracks": tracks, "steps": steps}
+            if CLS_INTPOW not in self.listed and self.intpow(tmp, steps[-1]):
+                steps[-1]["pf"] = "int"      # inputs of the class fdtw-int-distance-… are generated only while it is listed
+            if f == "m" and mode != "bad" and defined(cls, dim) and not self.intpow(tmp, steps[-1]):
+                okres.append(k)      # (no later call on the result of a call of that class)
         case = {"kind": "seq", "tracks": tracks, "pre": pre, "steps": steps}
         if cls != "enu":
             case["cls"] = cls
@@ -821,10 +823,15 @@ class P(Prop):
     def cmp_seq(self, case, impl_out, model_out):
         if "steps" not in impl_out or "steps" not in model_out:
             return "impl=%s model=%s" % (str(impl_out)[:300], str(model_out)[:300])
+        tainted = set()      # results of calls of a listed class (and of calls made on such results): not compared
         for k, st in enumerate(case["steps"]):
             io, mo = impl_out["steps"][k], model_out["steps"][k]
+            if st["a"] in tainted or st["b"] in tainted:
+                tainted.add("r%d" % k)
+                continue
             if self.gated(st["f"], st["mode"], st["p"], st["pf"]) == CLS_LOWPREC or self.intpow(case, st):
-                continue     # d**p is computed in float16/float32 (in int8 .. uint32) there: listed findings, the model works in float64
+                tainted.add("r%d" % k)
+                continue     # d**p is computed in float16/float32 (in the integer type of p) there: listed findings, the model works in float64
             if "err" in io or "err" in mo:
                 if io.get("err") != mo.get("err"):
                     return "call %d: impl=%s model=%s" % (k, str(io)[:200], str(mo)[:200])
@@ -1073,10 +1080,12 @@ class P(Prop):
             local frame of q, `q.distance2DTo(p)` in that of p, and the two horizontal planes differ (relative difference of the
             order of dh / R per unit of dh / d);
         three, each a decidable predicate on the first failing call of a session:
-        fdtw-int-distance-small-numpy-int-exponent: FDTW with dim = 1 on tracks whose altitudes are Python ints, p >= 1 a numpy
-            integer of at most 32 bits: `_fdtw` hands the raw `abs(U1 - U2)` (a Python int) to `B**p`, numpy converts B to the
-            type of p and raises OverflowError when it does not fit, or wraps around silently when the power does not
-            (65536 ** uint32(2) = 0: a wrong score) (`_dtw` reads the distance back from a float64 array);
+        fdtw-int-distance-small-numpy-int-exponent: FDTW (match or compare) on tracks whose coordinates are Python ints, with a
+            dim that yields Python-int distances (1, or a callable summing coordinate differences), p >= 1 a numpy integer
+            (int8 .. uint64), and some pair of fixes whose distance B has B ** p above the largest value of the type of p:
+            `_fdtw` hands the raw distance to `B**p`, which numpy evaluates in the type of p (OverflowError when B does not fit,
+            silent wrap-around when the power does not: 65536 ** uint32(2) = 0) (`_dtw` reads the distance back from a
+            float64 array); decided from the case, see `intpow`;
         p-numpy-type-name-without-int-or-float: p is a numpy scalar of type longlong / ulonglong / longdouble with a value other
             than 0 and infinity, and the call raised UnboundLocalError (`_p2weight` recognises numbers by the substrings
             'int' / 'float' of the type name);
@@ -1097,16 +1106,35 @@ class P(Prop):
             return cls
         if cls == CLS_LOWPREC and "err" not in o:
             return cls
-        if self.intpow(case, st) and o.get("err") in (None, "err:OverflowError"):
+        if self.intpow(case, st):
             return CLS_INTPOW
         return None
 
     @staticmethod
-    def intpow(case, st):
-        """FDTW, dim = 1, altitudes handed over as Python ints, p >= 1 a numpy integer of at most 32 bits: `_fdtw` computes
-        `B ** p` with B the Python int `abs(U1 - U2)`, in the integer type of p (OverflowError, or a silent wrap-around: 65536 ** uint32(2) = 0)"""
-        return (case.get("ct") == "int" and st["mode"] == "fdtw" and st["dim"] == 1 and st["pf"] in SMALLINT_FORMS
-                and st["p"] not in ("0", "inf"))
+    def int_distance_form(case, st):
+        """the FDTW variant (match or compare front end) with p >= 1 a numpy integer, on a call whose point distances are Python
+        ints: coordinates handed over as Python ints and dim = 1 (`abs(U1 - U2)`) or a callable of the harness (sums / maxima
+        of coordinate differences); dim = 2, 3 go through math.sqrt and `_dtw` reads the distance back from a float64 array"""
+        return (case.get("ct") == "int" and case.get("cls", "enu") == "enu" and st["mode"] == "fdtw" and st["pf"] in NPINT_MAX
+                and st["p"] not in ("0", "inf") and (st["dim"] == 1 or isinstance(st["dim"], str)))
+
+    def intpow(self, case, st):
+        """the defect class fdtw-int-distance-small-numpy-int-exponent, recognised from the case alone: `int_distance_form`, and
+        for some pair of fixes of the two tracks the integer distance B is such that B ** p exceeds the largest value of the type
+        of p — `_fdtw` evaluates `B ** p` in that type: OverflowError when B itself does not fit, a silent wrap-around otherwise
+        (65536 ** uint32(2) = 0), after which anything may follow (a wrong score, a coupling that does not realise it, a KeyError
+        in the backward walk)"""
+        if not self.int_distance_form(case, st):
+            return False
+        t1, t2 = self.geo(case, st["a"]), self.geo(case, st["b"])
+        k, top, dim = int(st["p"]), NPINT_MAX[st["pf"]], st["dim"]
+        for a in t2:
+            for b in t1:
+                if dim == "fn.lead" and a[0] - b[0] < 0:
+                    continue      # max(x1 - x2, 0.0) is the float 0.0 there: a float distance
+                if int(odist(a, b, dim)) ** k > top:
+                    return True
+        return False
 
     # ---------------------------------------------------------------- shrinking / search
     def shrink_seq(self, case):
